@@ -518,13 +518,16 @@ def n_recv( ctx ):
         else:
             res.bad( src, fn, '%s socket.error handling' % name, 'a dead connection must be reported as EOF (empty data) so that the receive loop terminates' )
     rd = src.get( 'readable' )
-    rets = [ r for r in ast.walk( rd ) if isinstance( r, ast.Return ) and r.value is not None and pmatch( r.value, 'function( *args, **kwds ) if r else default' ) ]
+    RM = Matcher()
+    sel = RM.find( rd, '( _r, _w, _x ) = select.select( [ args[0].fileno() ], [], [], _rem )' )
+    rets = [ r for r in ast.walk( rd ) if isinstance( r, ast.Return ) and r.value is not None and sel is not None
+             and pmatch( r.value, 'function( *args, **kwds ) if %s else default' % RM.name( '_r' )) ]
     if rets:
         res.ok( src, rets[0], 'readable: call the function only when select reports the socket readable, else return the default' )
     else:
         res.bad( src, rd, 'readable wrapper', 'the wrapped function must be called only when select reported readability; otherwise the default (timeout) is returned' )
     # the timeout passed to select is the remaining time, recomputed after EINTR
-    if pfind( rd, 'select.select( [ args[0].fileno() ], [], [], rem )' ):
+    if sel is not None and isinstance( RM.b.get( '_rem' ), ast.Name ):
         res.ok( src, rd, 'readable: select on the connection with the remaining timeout' )
     else:
         res.bad( src, rd, 'readable select', 'readability must be tested with select on the connection\'s file descriptor with the (remaining) timeout' )
